@@ -8,10 +8,12 @@
  *   coll mode   R <call> <rank> <nslots> <crc32> <sendmod> [v0 v1 ...]     recv allocation incl. guards
  *               T <call> <rank> <t_enter %a> <t_exit %a> <rc>
  *               S <call> <rank>   call entered          X <call> <rank>   wait of a non-blocking call entered
+ *               K <rank> <signal> the rank that was running when a fatal signal arrived (all modes)
  *   rma mode    W <phase> <rank> v0 v1 ...                                 window snapshot after a sync
  *               G <phase> <rank> <opid> v0 v1 ...                          value fetched by a Get-type op
  *               E <phase> <rank> <opid> <rc>                                non-success return code
  *   replay mode F <rank> <t %a>                                            date just before MPI_Finalize
+ *               A <rank> <op index> <t %a>                                 completion date of each op
  */
 #include <mpi.h>
 #include <stdio.h>
@@ -460,6 +462,7 @@ static int run_coll(toks_t* t, int rank, int np)
  *   wsize W                            window of W ints per rank
  *   nphases P
  *   phase <p> <kind>                   kind: fence | lock | lockall | pscw
+ *   fassert <0|1>                      (fence) 1: MPI_MODE_NOPRECEDE on the opening and MPI_MODE_NOSUCCEED on the closing fence
  *   init <p> <seed>                    every rank re-initialises its window from the seed before the phase (then barrier)
  *   arr group <n> r...                 (pscw) for every rank: 0/1 target flags matrix np*np [origin][target]
  *   nops <rank> <n>                    then n ops of this rank:
@@ -524,7 +527,8 @@ static int run_rma(toks_t* t, int rank, int np)
     int ph = (int)tki(t);
     const char* kind = tk(t);
     int is_fence = !strcmp(kind, "fence"), is_pscw = !strcmp(kind, "pscw");
-    uint32_t iseed = 0; int* grp = 0;
+    uint32_t iseed = 0; int* grp = 0; int fassert = 0;
+    if (tk_is(t, "fassert")) { tk(t); fassert = (int)tki(t); }
     if (tk_is(t, "init")) { tk(t); tki(t); iseed = (uint32_t)strtoul(tk(t), 0, 10); }
     if (tk_is(t, "arr")) { tk(t); tk(t); long n = tki(t); grp = read_matrix(t, n); }
     rop_t* mine = 0; int nmine = 0;
@@ -552,7 +556,7 @@ static int run_rma(toks_t* t, int rank, int np)
     if (iseed) for (long i = 0; i < W; i++) base[i] = (int)value_of(VC_SUM, iseed, rank, i, 1 << 20) + 10;
     MPI_Barrier(MPI_COMM_WORLD);
     MPI_Group og = MPI_GROUP_NULL, tg = MPI_GROUP_NULL; int n_og = 0, n_tg = 0;
-    if (is_fence) MPI_Win_fence(0, win);
+    if (is_fence) MPI_Win_fence(fassert ? MPI_MODE_NOPRECEDE : 0, win);
     if (is_pscw) {
       int ranks[MAXNP];
       n_og = 0; for (int o = 0; o < np; o++) if (grp[o * np + rank]) ranks[n_og++] = o;        /* my origins (I am target) */
@@ -601,7 +605,7 @@ static int run_rma(toks_t* t, int rank, int np)
       if (rc != MPI_SUCCESS) printf("E %d %d %d %d\n", ph, rank, o->id, rc);
       if (sync) { rma_flush_results(ph, rank, mine, from, i + 1); from = i + 1; }
     }
-    if (is_fence) MPI_Win_fence(0, win);
+    if (is_fence) MPI_Win_fence(fassert ? MPI_MODE_NOSUCCEED : 0, win);
     if (is_pscw) {
       if (n_tg) { MPI_Win_complete(win); MPI_Group_free(&tg); }
       if (n_og) { MPI_Win_wait(win); MPI_Group_free(&og); }
@@ -687,6 +691,7 @@ static int run_replay(toks_t* t, int rank, int np)
         for (int k = 0; k < np; k++) { cnts2[k] = A(); dsp2[k] = tr; tr += cnts2[k]; }
         if (me) MPI_Alltoallv(sbuf, cnts, dsp, dt, rbuf, cnts2, dsp2, dt, MPI_COMM_WORLD);
       } else { fprintf(stderr, "mpicoll: unknown replay op %s\n", w); exit(3); }
+      if (me) printf("A %d %d %a\n", rank, i, MPI_Wtime());      /* completion date of every op, to locate a divergence */
     }
   }
   printf("F %d %a\n", rank, MPI_Wtime());
@@ -694,11 +699,34 @@ static int run_replay(toks_t* t, int rank, int np)
   return 0;
 }
 
+/* Fatal signals: say which rank was running (the handler executes in the context of the crashing actor), then die
+ * with the original signal.  Lets the oracle blame the call that rank was in instead of the last call entered. */
+#include <signal.h>
+#include <unistd.h>
+#include <simgrid/actor.h>
+static void fatal_signal(int sig)
+{
+  int r = -1;
+  signal(sig, SIG_DFL);
+  r = (int)sg_actor_self_get_pid() - 1;      /* ranks are actors 1..np; no MPI call in here */
+  char line[64];
+  int len = snprintf(line, sizeof line, "\nK %d %d\n", r, sig);
+  if (write(1, line, len) < 0) {}
+  raise(sig);
+}
+
 int main(int argc, char** argv)
 {
   setvbuf(stdout, 0, _IOLBF, 1 << 16); /* an abort must not lose the observations of completed calls */
   MPI_Init(&argc, &argv);
   int rank, np;
+  {
+    struct sigaction sa;
+    memset(&sa, 0, sizeof sa);
+    sa.sa_handler = fatal_signal;
+    sa.sa_flags = SA_ONSTACK | SA_NODEFER;
+    sigaction(SIGSEGV, &sa, 0); sigaction(SIGBUS, &sa, 0); sigaction(SIGFPE, &sa, 0); sigaction(SIGABRT, &sa, 0);
+  }
   MPI_Comm_rank(MPI_COMM_WORLD, &rank);
   MPI_Comm_size(MPI_COMM_WORLD, &np);
   if (argc < 2) { fprintf(stderr, "usage: mpicoll <plan>\n"); MPI_Abort(MPI_COMM_WORLD, 3); }
